@@ -25,6 +25,16 @@ package main
 // delayed/duplicated/reordered, unsolicited answers are sent; budgets bound the
 // tampering. Silent scenarios: one team peer never answers (15 s pool timeout).
 //
+// Swap scenarios (swap.go): H and the team all announce the full height; H answers
+// genuinely, the team answers genuinely except for the heights h and h+1 of a planned
+// window, for which a team peer leaves and comes back instead (so that H delivers both).
+// At verifhook.Point("blockchain.PeekTwoBlocks") (poolRoutine's goroutine, after the peek
+// of h and h+1, before h is judged, popped and executed) with the block store at h-1 and
+// both of H's answers acknowledged, H's connection is closed, the node drops it (the
+// requester of h turns to a team peer) and the team pushes a forged block for h into
+// the re-assigned requester; then the routine goes on, H comes back. The node has to
+// execute the block it judged, not what the pool holds at pop time.
+//
 // Crash-resume scenarios (crashresume.go): three honest peers at the top; the node is
 // killed by the durable-write failpoint while it syncs and the same worker is run
 // again on its directory (phase 2).
@@ -65,8 +75,9 @@ type episodeSpec struct {
 
 type scenarioSpec struct {
 	ID       int           `json:"id"`
-	Kind     string        `json:"kind"` // surgical | control | final | mix | silent | crash-resume
+	Kind     string        `json:"kind"` // surgical | control | final | mix | silent | swap | crash-resume
 	Episodes []episodeSpec `json:"episodes"`
+	Swaps    []episodeSpec `json:"swap_windows,omitempty"` // swap: t = the height whose requester is swapped between peek and pop, mutation = the forged block pushed
 	Seed     int64         `json:"seed"`
 	Tier     string        `json:"tier"`
 	P        int           `json:"tamper_percent"` // mix
@@ -121,9 +132,10 @@ type peerCtl struct {
 	mtx    sync.Mutex
 	rp     *rawPeer
 	gen    int
-	claim  int64 // what it announces (team); H: d.hLimit
-	budget int   // mix
-	leave  int32 // does not come back
+	claim  int64      // what it announces (team); H: d.hLimit
+	budget int        // mix
+	leave  int32      // does not come back
+	dmtx   sync.Mutex // swap: one at a time leaves and dials
 }
 
 type director struct {
@@ -164,7 +176,8 @@ type director struct {
 	failed    bool
 	checked   int64 // stored heights compared so far
 	early     bool
-	execBase  int64 // crash-resume, restart: the application's height when the node had been built again
+	execBase  int64      // crash-resume, restart: the application's height when the node had been built again
+	sw        *swapState // swap (swap.go)
 }
 
 // ---- log hook ---------------------------------------------------------------------------
@@ -390,7 +403,7 @@ func (p *peerCtl) claimNow() int64 {
 	if p.honest {
 		return d.hLimit
 	}
-	if d.spec.Kind == "mix" || d.spec.Kind == "silent" || d.final {
+	if d.spec.Kind == "mix" || d.spec.Kind == "silent" || d.spec.Kind == "swap" || d.final {
 		return d.c.top
 	}
 	return d.teamClaim
@@ -403,6 +416,9 @@ func (p *peerCtl) announce() {
 	}
 	if c := p.claimNow(); c >= 1 {
 		rp.send(bcCh, encBC(&xStatusResponse{c}))
+		if p.d.sw != nil {
+			p.d.announceSwap(p, rp)
+		}
 	}
 }
 
@@ -417,6 +433,10 @@ func (p *peerCtl) loop(rp *rawPeer) {
 				p.announce()
 			case *xBlockRequest:
 				p.d.onRequest(p, rp, msg.Height)
+			case *xStatusResponse:
+				if p.d.sw != nil {
+					p.d.onStatusResponse(rp)
+				}
 			}
 		}
 	}
@@ -450,12 +470,15 @@ func (d *director) onRequest(p *peerCtl, rp *rawPeer, h int64) {
 		return
 	}
 	var out []outMsg
+	bounce := false
 	d.mtx.Lock()
 	if trace {
 		d.note("%s request from node to %s for %d (active=%v held=%d)", time.Now().Format("05.000"), p.name, h, d.active != nil, len(d.held))
 	}
 	if d.spec.Kind == "mix" || d.spec.Kind == "silent" {
 		out = d.respondMix(p, rp, h)
+	} else if d.spec.Kind == "swap" {
+		out, bounce = d.respondSwap(p, rp, h)
 	} else {
 		out = d.respond(p, rp, h)
 	}
@@ -466,10 +489,17 @@ func (d *director) onRequest(p *peerCtl, rp *rawPeer, h int64) {
 			d.note("   %s answers %d genuinely", p.name, h)
 		}
 	}
-	if trace && len(out) == 0 {
+	if trace && len(out) == 0 && !bounce {
 		d.note("   %s holds the request for %d", p.name, h)
 	}
+	if trace && bounce {
+		d.note("   %s leaves instead of answering %d", p.name, h)
+	}
 	d.mtx.Unlock()
+	if bounce {
+		go p.bounce(rp)
+		return
+	}
 	for _, m := range out {
 		if m.tampered {
 			atomic.AddInt64(&d.delivered, 1)
@@ -621,6 +651,13 @@ func (d *director) keepPeers() {
 			if p.mute {
 				atomic.StoreInt32(&p.leave, 1) // timed out by the pool: it stays away
 				d.run.Count("silent_peers_removed_by_the_node", 1)
+				continue
+			}
+			if d.sw != nil {
+				if p.comeBack() {
+					d.run.Count("peers_gone_and_back", 1)
+					p.announce()
+				}
 				continue
 			}
 			if err := p.dial(); err == nil {
@@ -1040,6 +1077,15 @@ func syncWorker(args []string) {
 	switch spec.Kind {
 	case "mix", "silent":
 		d.hLimit = c.top
+	case "swap":
+		d.hLimit = c.top
+		for _, es := range spec.Swaps {
+			if m := d.muts[es.Mut]; m == nil || m.onT == nil {
+				bail("unknown swap mutation %s", es.Mut)
+			}
+		}
+		d.initSwap()
+		verifhook.SetPointFunc(d.onPoint)
 	}
 	// the team first: somebody must always claim more than the node has
 	for _, p := range d.team {
@@ -1054,6 +1100,8 @@ func syncWorker(args []string) {
 	switch spec.Kind {
 	case "surgical", "final":
 		d.runEpisodes()
+	case "swap":
+		d.runSwap()
 	case "mix", "silent":
 		d.announceAll()
 		// until the budgets are spent (mix) / the silent peer was timed out, or the node is through
